@@ -415,7 +415,51 @@ def rule_r7(chk, facts):
         raise AnalysisBroken('only %d modulus / slot-read sites found in the disassemblers' % n)
 
 
+def rule_r8(chk, facts):
+    chk.rule('C15-R8', 'das.c, image loaders: a record is appended to the chunk being collected (copied behind the bytes already '
+             'there) only where its address was found equal to the chunk\'s end, or the chunk was just started at the '
+             'record\'s address; anything else would place bytes of one address range at the addresses of another',
+             min_instances=1)
+    u = facts.unit('das.c')
+    n = 0
+    for f in u.funcs.values():
+        if f.file != 'das.c' or f.entry is None:
+            continue
+        for b, i, ln, c in f.calls('memcpy'):
+            d = nocast(c[2][0])
+            if not any(isinstance(m, (list, tuple)) and m and m[0] == 'm' and m[2].endswith('.pCode') for m in walk(d)):
+                continue
+            # append = destination is an element behind the start of the buffer
+            off = None
+            if d[0] == 'u' and d[1] == '&' and nocast(d[2])[0] == 'i':
+                off = nocast(nocast(d[2])[2])
+            elif d[0] == 'b' and d[1] == '+':
+                off = nocast(d[3])
+            if off is None or const_val(off) == 0:
+                continue
+            n += 1
+
+            def is_start(x):
+                return isinstance(x, (list, tuple)) and x and x[0] == 'm' and x[2].endswith('.Start')
+
+            def contiguous(l):
+                return edge_has_atom(l, lambda a: a[0] == 'cmp' and a[1] == '==' and any(is_start(m) for m in walk(a[2])) and
+                                     any(isinstance(m, (list, tuple)) and m and m[0] == 'm' and m[2].endswith('.Length') for m in walk(a[2])))
+
+            def restarted(ex):
+                return any(is_assign(m) and m[1] == '=' and is_start(nocast(m[2])) for m in walk_own(ex))
+            ok, w = f.guarded(b, i, contiguous, restarted)
+            chk.ob('C15-R8', 'das.c:%s:append@%d' % (f.name, n), ok, f.loc(ln),
+                   'behind "chunk end == record address" or a restart of the chunk' if ok else
+                   'the record is copied behind the collected bytes on a path (%s) on which its address was not found equal to '
+                   'the end of the chunk: a record that starts below the chunk end (segments in descending order) lands at '
+                   'the wrong addresses' % ' '.join(w[-5:]))
+    if not n:
+        raise AnalysisBroken('das.c: no appending copy into a code chunk found')
+
+
 def run(chk, facts, info):
+    rule_r8(chk, facts)
     rule_6800(chk, facts)
     rule_4004(chk, facts)
     rule_fold(chk, facts)
